@@ -25,7 +25,7 @@ from vt import Infra
 
 def validate_tokenizer(ctx, workers):
     out = os.path.join(ctx.scratch, "lex.ndjson")
-    res = ctx.tlc("pp", "PrinterMC", "Printer_lex.cfg", env=dict(OUT=out), workers=workers, timeout=600, heap="4g")
+    res = c09.tlc_full(ctx, "PrinterMC", "Printer_lex.cfg", env=dict(OUT=out), workers=workers, timeout=600, heap="4g")
     if not res.ok:
         raise Infra("Printer_lex.cfg failed: " + res.trace_text()[:500])
     rows = vt.read_ndjson(out)
@@ -40,10 +40,10 @@ def validate_tokenizer(ctx, workers):
 
 
 def printer_model(ctx, workers):
-    ctx.tlc_expect_ok("pp", "PrinterMC", "Printer_mc.cfg",
-                      "print_tokens (with the paste-avoidance test) is not faithful on some pair/triple", workers=workers, heap="4g")
+    c09.expect_ok(ctx, "PrinterMC", "Printer_mc.cfg",
+                  "print_tokens (with the paste-avoidance test) is not faithful on some pair/triple", workers=workers, heap="4g")
     cfg = ctx.cfg("pp", "Printer_mc.cfg", PFix=False)
-    ctl = ctx.tlc("pp", "PrinterMC", cfg, workers=2, count=False, heap="4g")
+    ctl = c09.tlc_full(ctx, "PrinterMC", cfg, workers=2, count=False, heap="4g")
     if ctl.ok:
         raise Infra("sensitivity control failed: TLC accepts print_tokens without any separation test")
 
@@ -99,11 +99,13 @@ def corpus(ctx, tree, files):
     inc = ["-I" + tree + "/include", "-I" + tree + "/test", "-I" + tree]
     d = ctx.tmp("corpus")
 
+    class R:
+        def __init__(self, t):
+            self.returncode, self.stdout, self.stderr = t
+
     def sh(cmd):
-        try:
-            return subprocess.run(cmd, capture_output=True, text=True, timeout=120, errors="replace")
-        except subprocess.TimeoutExpired:
-            return None
+        t = ppcase.run_limited(cmd, 60)
+        return None if t[0] == "timeout" else R(t)
 
     def one(src):
         b = os.path.basename(src)
@@ -158,8 +160,10 @@ def run(ctx):
         open(cfg2, "w").write(open(cfg).read().replace("StandardExamples", "PrintedFaithful"))
         jobs.append((fam, cfg2, cfg2[:-4] + ".ndjson"))
 
+    cap = int(os.environ.get("VERIF_TLC_CAP", "0"))       # development aid on a shared machine
+
     def gen(j):
-        return c09.run_gen(ctx, j[0], j[1], j[2], workers=3 if q else 6)
+        return c09.run_gen(ctx, j[0], j[1], j[2], workers=min(cap or 99, 3 if q else 6))
 
     def models(_):
         printer_model(ctx, 3)
@@ -168,11 +172,11 @@ def run(ctx):
         cfg = ctx.cfg("pp", "Macro_mc.cfg", Family='"P"', Stride=97, Seed=0, PFix=False, ArgOrder='"ltr"')
         cfg2 = cfg[:-4] + "-inv.cfg"
         open(cfg2, "w").write(open(cfg).read().replace("FinalAgree StandardExamples", "PrintedFaithful"))
-        ctl = ctx.tlc("pp", "Macro", cfg2, workers=2, count=False, heap="4g")
+        ctl = c09.tlc_full(ctx, "Macro", cfg2, workers=2, count=False, heap="4g")
         if ctl.ok:
             raise Infra("sensitivity control failed: Macro.tla family P accepts the pinned print_tokens")
         return None
-    results = vt.pmap(lambda t: t[0](t[1]), [(gen, j) for j in jobs] + [(models, None)], workers=4)
+    results = vt.pmap(lambda t: t[0](t[1]), [(gen, j) for j in jobs] + [(models, None)], workers=2 if cap else 4)
     ctx.phase("tlc done")
     total = 0
     for (fam, cfg, out), cases in zip(jobs, results[:len(jobs)]):
